@@ -195,14 +195,14 @@ def rand_value(rng, i):
         return enc([1, 'a', [2, None]])
     if k == 5:
         return {'t': 'date', 'y': 2020, 'mo': 2, 'd': 29, 'ms': 3600000}
-    return {'t': 'opq', 'r': 'tag:obj%d' % i}
+    return {'t': 'opq', 'r': ('tag:obj%d' if rng.random() < 0.6 else 'tag:exc%d') % i}     # (exc: a host object that is an exception instance)
 
 
 def random_case(rng, i):
     hist = []
     names = [rand_name(rng) for _ in range(3)]
     fns = [rand_name(rng).upper() + rng.choice(['', '.X', '_F']) for _ in range(2)] + ['SUM', 'ABS', 'IF'] + \
-          [rng.choice(['triple', 'Net_Price', 'my.fn', 'sum', 'Abs', 'iF'])]      # names are case-sensitive
+          [rng.choice(['triple', 'Net_Price', 'my.fn', 'sum', 'Abs', 'iF', 'f', 'fn', 'next_id', 'lookup_rate', 'xl', 'n', 'x_f', 'lf'])]      # names are case-sensitive
     for _ in range(rng.randint(1, 8)):
         p = rng.choice(['p1', 'p2', 'p3'])
         if rng.random() < 0.6:
@@ -251,7 +251,8 @@ def near_miss_trace(lib, names, tid):
     h = Hist(lib, tid, {'near_miss_names': len(names)})
     known = set(names)
     for i, name in enumerate(names):
-        for cand in (name + '.ALL', name + '.X', name + '_2', name + 'X', 'X' + name, name + '.' + name, name[:-1] if len(name) > 2 else name + 'Q'):
+        for cand in (name + '.ALL', name + '.X', name + '_2', name + 'X', 'X' + name, name + '.' + name, name[:-1] if len(name) > 2 else name + 'Q',
+                     'x' + name, 'n' + name, 'xl' + name, 'fn' + name, 'l' + name, '_xlfn.' + name + 'X', 'f' + name):
             if cand in known or not cand[0].isalpha():
                 continue
             if (i + len(cand)) % 3 == 0:
@@ -312,6 +313,11 @@ def main(tier, replay=None):
             tr = [near_miss_trace(lib, names, 1)]
         elif 'stamina_calls' in case:
             tr = [stamina_trace(lib, names, 1, case['stamina_calls'])]
+        elif case.get('kind') == 'cold':
+            from . import c03
+            ev, pn = c03.run_cold(lib, case)
+            core.validate_hist(run, [{'tid': 1, 'ev': ev, 'case': case}], 'replay', consts, engine='c09', parsers=pn)
+            return run.finish()
         else:
             tr = [replay_case(lib, 1, case)]
         core.validate_hist(run, tr, 'replay', consts, engine='c09')
@@ -356,6 +362,13 @@ def main(tier, replay=None):
     emit(lambda tid: shadow_trace(lib, names, tid))
     emit(lambda tid: near_miss_trace(lib, names, tid))
     emit(lambda tid: stamina_trace(lib, names, tid, 12000 if quick else 120000))
+    flush()
+    # every documented name resolves also when the first look-ups of a process happen in several threads at once
+    from . import c03
+    for rep in range(3 if quick else 20):
+        case = {'kind': 'cold', 'n': [4, 8, 8][rep % 3], 'step': 1 + rep % 5, 'rep': rep}
+        ev, pn = c03.run_cold(lib, case)
+        core.validate_hist(run, [{'tid': 1, 'ev': ev, 'case': case}], 'cold%d' % rep, consts, engine='c09', parsers=pn)
     emit(lambda tid: resolve_trace(lib, names, tid))
     flush()
     run.exhaustive = True
